@@ -11,6 +11,10 @@ def hook_commits():
         return []
 
 CHECKS = {
+ "C20": dict(cat="exploration",
+   text="The real rocket server on loopback is driven with raw HTTP form posts (names / fields over an alphabet that needs URL encoding, invalid session ids, missing event name, 8 concurrent clients) and with <send type=BasicHTTP> from real sessions to published locations; a checker over the receivers' probe marks decides status per request class, exactly-once per accepted request, name / data equality and textual parameter forms.",
+   note="Trusted: the raw HTTP client in c20.rs (sends only what application/x-www-form-urlencoded defines), the probe marks. The port is fixed at 5555 by the implementation: the check serialises itself with a file lock; a busy port is reported as inconclusive, never as violation. Duplicate field names are not generated.",
+   tech="black-box runtime check over the real HTTP endpoint with exactly-once multiset checker", ref="DESIGN.md §5 C20"),
  "C14": dict(cat="exploration",
    text="Parameterised parent / child scenarios (finishing and streaming children, parent-side cancellation after k child events or waiting for done.invoke, re-entered invoking states, two invokes per state, autoforward with host events, explicit and generated ids, inline content and src files) run for real; one merged log of parent and children (each child event carries its sequence number and the child's session id) is checked per clause with ordering / counting predicates; race-dependent clauses are stated per observed outcome.",
    note="Trusted: rec.rs merged log, the per-clause predicates in c14.rs. Relative timing comes from the scenario parameters and OS scheduling; the outcome orders actually seen are listed in the evidence. 'Invokes are cancelled after onexit' (ordering relative to onexit content) is not part of the statement and not judged.",
